@@ -2,7 +2,7 @@ ENGINES = [
     {"name": "SX", "path": "/verif/symx", "kind_free_text": "concolic value-symbolic execution of irispie's real numeric kernels on numpy object arrays of z3 Real terms; z3 decides each obligation for all values; sat models are replayed in floats",
      "serves_properties": ["C02", "C13", "C17"]},
     {"name": "XH", "path": "/verif/xh", "kind_free_text": "CrossHair (symbolic execution of Python with z3) on harnesses calling the real irispie.dates / index code",
-     "serves_properties": ["C09"]},
+     "serves_properties": ["C09", "C11"]},
 ]
 NOTES = ("Solver-based checking only. Every check regenerates its encoding by executing /repo's current source. "
          "Exit 3 = inconclusive/harness error (never success). See DESIGN.md.")
@@ -21,4 +21,7 @@ CHECKS["C17"] = dict(engine="SX", technique="lifting Sequential.simulate at its 
 CHECKS["C09"] = dict(engine="XH", technique="CrossHair symbolic execution (z3) of the real irispie.dates code on symbolic int serials/offsets/steps, per-condition path exhaustion with reachability twins",
     text="Bounded symbolic execution: for every period class, CrossHair explores all paths of harnesses calling the real Period/Span code with symbolic integers and confirms arithmetic/order laws (unbounded ints), year/segment and keyword-shift accessors (years +-10000), calendar tiling via to_ymd/to_daily (years 1..9998), the daily ymd round trip on all ordinals, mixed-frequency rejection, and Span enumeration/len/indexing/reversal/offset/mutation/resolve/operators on small symbolic spans.",
     note="datetime.date and calendar.monthrange replaced by a loop-free integer calendar validated against the real modules on each run; counterexamples replayed with the real datetime; bounds per condition in the evidence samples; hash only on 6x6 windows.")
+CHECKS["C11"] = dict(engine="XH", technique="CrossHair symbolic execution (z3) of the real irispie.dates conversion code on symbolic int serials and positions, with reachability twins",
+    text="Bounded symbolic execution: CrossHair confirms over all paths the (year,segment)/(y,m,d)/python-date round trips for every period of years 1..9998 and all daily ordinals, the ISO/SDMX(auto-detected)/repr string round trips on boundary windows, and for every ordered pair of calendar frequencies that refrequent contains the chosen day, is monotone and returns to the source period.",
+    note="datetime/calendar replaced by a validated loop-free integer calendar; string legs only on 2-year windows at 0009/0099/0999/1999/9998 and daily windows; CSV import/export legs outside the claim (file I/O).")
 NOT_APPLICABLE = {f"C{i:02d}": _PENDING for i in range(1, 21)}
